@@ -401,3 +401,8 @@ SUBCHECKS = [
         tolerances={"step length": "1e-8 rel + 1e-11", "mid-point": "5e-7 km (accumulated rounding of <= 40 000 steps)"},
     ),
 ]
+
+# the same oracles in interpreters started with -O / -OO (see core.env_variant)
+from ..core import env_variant  # noqa: E402
+
+SUBCHECKS.append(env_variant(__name__, next(sc for sc in SUBCHECKS if sc.name == "clamp_1deg")))
